@@ -13,6 +13,17 @@ class IOFault(OSError):
     pass
 
 
+class ServiceFault(RuntimeError):
+    """What a storage SDK raises for a failed request (azure's HttpResponseError is no OSError)."""
+
+
+class PlainFault(Exception):
+    pass
+
+
+FAULT_CLASSES = {"exception": IOFault, "exception-service": ServiceFault, "exception-plain": PlainFault}
+
+
 def _planned(plan, k, offset, length):
     """Fault planned for this read: plans are keyed by read index k or by (offset, length) (consumed once)."""
     if not plan:
@@ -104,9 +115,9 @@ class CountingFile:
             kind = _planned(self.plan, k, off, length)
             # the file position moves by what the read delivered, as with a real descriptor: not at all
             # for a failed or empty read, by the prefix length for a short one
-            if kind == "exception":
+            if kind in FAULT_CLASSES:
                 self.log.append((off, length, -1))
-                raise IOFault(f"injected read failure at read #{k} (offset {off}, length {length})")
+                raise FAULT_CLASSES[kind](f"injected read failure at read #{k} (offset {off}, length {length})")
             if kind == "empty":
                 data = b""
             elif isinstance(kind, (list, tuple)) and kind[0] == "short":
@@ -174,10 +185,10 @@ class CountingBlob:
                 kind = _planned(self.plan, k, offset, length)
             if self.controller is not None:
                 self.controller.done(k)
-            if kind == "exception":
+            if kind in FAULT_CLASSES:
                 with self.lock:
                     self.log.append((offset, length, -1))
-                raise IOFault(f"injected blob failure at request #{k} (offset {offset}, length {length})")
+                raise FAULT_CLASSES[kind](f"injected blob failure at request #{k} (offset {offset}, length {length})")
             if kind == "empty":
                 data = b""
             elif isinstance(kind, (list, tuple)) and kind[0] == "short":
@@ -234,6 +245,10 @@ def need(T, op):
             return "data", box_blocks(T, ((a[0], a[1]), (a[2], a[3])))
     n_il, n_xl, n_s = T.n_il, T.n_xl, T.n_s
     full = ((0, n_il), (0, n_xl), (0, n_s))
+    if m == "iline_slice":
+        return "data", box_blocks(T, ((a[0], a[1]), full[1], full[2]))
+    if m == "xline_slice":
+        return "data", box_blocks(T, (full[0], (a[0], a[1]), full[2]))
     if m in ("read_inline", "read_inline_number", "iline"):
         return "data", box_blocks(T, ((a[0], a[0] + 1), full[1], full[2]))
     if m in ("read_crossline", "read_crossline_number", "xline"):
